@@ -76,15 +76,15 @@ Qed.
 Lemma flat_desc_len ds : length (flat_map desc_encode ds) = (length ds * 14)%nat.
 Proof. induction ds as [|d ds IH]; [reflexivity|]. cbn [flat_map length]. rewrite app_length, desc_encode_len, IH. lia. Qed.
 
-Theorem parse_index_round ds :
-  ds <> [] -> descs_ok 0 ds -> N.of_nat (length ds) <= 4294967296 ->
+Theorem parse_index_round i0 ds :
+  ds <> [] -> descs_ok i0 ds -> N.of_nat (length ds) + i0 <= 4294967296 ->
   parse_index (flat_map desc_encode ds) = Ok ds.
 Proof.
   intros Hne Hok Hb. unfold parse_index.
   destruct (flat_map desc_encode ds) eqn:Ef.
   { apply (f_equal (@length N)) in Ef. rewrite flat_desc_len in Ef. destruct ds; [contradiction|cbn in Ef; lia]. }
   rewrite <- Ef. rewrite flat_desc_len, Nat.mod_mul, Nat.div_mul by lia. cbn [Nat.eqb negb].
-  apply (parse_descs_spec ds 0 0 []); [exact Hok|intros H; contradiction|lia].
+  apply (parse_descs_spec ds i0 0 []); [exact Hok|intros H; contradiction|exact Hb].
 Qed.
 
 (* ------------------------------------------------------------------ *)
@@ -114,17 +114,17 @@ Qed.
 
 Definition iabs (bl : list bwriter) : list N := concat (map bw_abs bl).
 
-(* block number i holds id i; every block is a reachable non-empty writer *)
+(* block number k holds id i0 + k; every block is a reachable non-empty writer *)
 Fixpoint blocks_ok (i : N) (bl : list bwriter) : Prop :=
   match bl with
   | [] => True
   | b :: r => bw_reach b /\ bw_abs b <> [] /\ d_id (bw_desc b) = i /\ blocks_ok (i + 1) r
   end.
 
-Record iok (bl : list bwriter) : Prop := mkIok {
-  io_blocks : blocks_ok 0 bl;
+Record iok (i0 : N) (bl : list bwriter) : Prop := mkIok {
+  io_blocks : blocks_ok i0 bl;
   io_asc : asc 0 (iabs bl);
-  io_count : N.of_nat (length bl) < 4294967296 }.
+  io_count : i0 + N.of_nat (length bl) < 4294967296 }.
 
 (* what the store holds for it *)
 Record stored (db : idb) (bl : list bwriter) : Prop := mkStored {
@@ -188,16 +188,16 @@ Proof.
   destruct Hok as (H1 & H2 & _ & Hok). destruct Hin as [<-|Hin]; [tauto|]. exact (IH _ _ Hok Hin).
 Qed.
 
-Theorem db_abs_spec db bl : iok bl -> stored db bl -> db_abs db = Ok (iabs bl).
+Theorem db_abs_spec i0 db bl : iok i0 bl -> stored db bl -> db_abs db = Ok (iabs bl).
 Proof.
   intros Hok Hst. unfold db_abs. rewrite (st_meta _ _ Hst).
   destruct bl as [|b0 bl']; [reflexivity|].
   destruct (flat_map desc_encode (map bw_desc (b0 :: bl'))) eqn:Ef.
   { apply (f_equal (@length N)) in Ef. rewrite flat_desc_len in Ef. cbn in Ef. lia. }
-  rewrite <- Ef. pose proof (io_count _ Hok) as Hc.
-  rewrite parse_index_round; [|discriminate|apply blocks_descs_ok; [exact (io_blocks _ Hok)|lia]|rewrite map_length; lia].
+  rewrite <- Ef. pose proof (io_count _ _ Hok) as Hc.
+  rewrite (parse_index_round i0); [|discriminate|apply blocks_descs_ok; [exact (io_blocks _ _ Hok)|lia]|rewrite map_length; lia].
   cbn [bind]. apply blocks_elems_spec. intros b Hb.
-  destruct (blocks_ok_forall _ _ _ (io_blocks _ Hok) Hb). split; [assumption|]. split; [assumption|].
+  destruct (blocks_ok_forall _ _ _ (io_blocks _ _ Hok) Hb). split; [assumption|]. split; [assumption|].
   apply (st_blocks _ _ Hst). exact Hb.
 Qed.
 
@@ -208,11 +208,11 @@ Definition iw_abs (w : iwriter) (pre : list bwriter) : list N :=
   iabs (pre ++ iw_frozen w) ++ bw_abs (iw_bw w).
 
 (* [pre]: the blocks that stay in the store untouched (iw_base holds their descriptors) *)
-Record iwrepr (w : iwriter) (pre : list bwriter) : Prop := mkIwrepr {
+Record iwrepr (i0 : N) (w : iwriter) (pre : list bwriter) : Prop := mkIwrepr {
   iwr_base : iw_base w = map bw_desc pre;
-  iwr_blocks : blocks_ok 0 (pre ++ iw_frozen w);
+  iwr_blocks : blocks_ok i0 (pre ++ iw_frozen w);
   iwr_reach : bw_reach (iw_bw w);
-  iwr_id : d_id (bw_desc (iw_bw w)) = N.of_nat (length (pre ++ iw_frozen w));
+  iwr_id : d_id (bw_desc (iw_bw w)) = i0 + N.of_nat (length (pre ++ iw_frozen w));
   iwr_empty : bw_abs (iw_bw w) = [] -> pre = [] /\ iw_frozen w = [];
   iwr_asc : asc 0 (iw_abs w pre);
   iwr_last : iw_last w = last (iw_abs w pre) 0 }.
@@ -233,37 +233,37 @@ Qed.
 Lemma last_app_nonnil (a b : list N) d : b <> [] -> last (a ++ b) d = last b d.
 Proof. apply last_app_ne. Qed.
 
-Theorem iw_append_spec w pre id :
-  iwrepr w pre -> id < two64 -> N.of_nat (length (pre ++ iw_frozen w)) + 2 < 4294967296 ->
+Theorem iw_append_spec i0 w pre id :
+  iwrepr i0 w pre -> id < two64 -> i0 + N.of_nat (length (pre ++ iw_frozen w)) + 2 < 4294967296 ->
   (id <= last (iw_abs w pre) 0 -> iw_append w id = Err EAppendOrder) /\
   (last (iw_abs w pre) 0 < id ->
-   exists w', iw_append w id = Ok w' /\ iwrepr w' pre /\ iw_abs w' pre = iw_abs w pre ++ [id] /\
+   exists w', iw_append w id = Ok w' /\ iwrepr i0 w' pre /\ iw_abs w' pre = iw_abs w pre ++ [id] /\
               (length (pre ++ iw_frozen w') <= S (length (pre ++ iw_frozen w)))%nat).
 Proof.
-  intros I Hid Hcnt. unfold iw_append. rewrite (iwr_last _ _ I). split.
+  intros I Hid Hcnt. unfold iw_append. rewrite (iwr_last _ _ _ I). split.
   - intros Hle. replace (id <=? last (iw_abs w pre) 0) with true by (symmetry; apply N.leb_le; exact Hle). reflexivity.
   - intros Hlt. replace (id <=? last (iw_abs w pre) 0) with false by (symmetry; apply N.leb_gt; exact Hlt).
     assert (Hnz : id <> 0) by lia.
-    pose proof (iwr_asc _ _ I) as Hasc.
+    pose proof (iwr_asc _ _ _ I) as Hasc.
     assert (Hasc' : asc 0 (iw_abs w pre ++ [id])) by (apply asc_app; split; [exact Hasc|cbn [asc]; auto]).
     destruct (bw_estimate_full (iw_bw w)) eqn:Ef.
     + (* rotate *)
       set (nid := (d_id (bw_desc (iw_bw w)) + 1) mod 4294967296).
-      assert (Hnid : nid = N.of_nat (length (pre ++ iw_frozen w ++ [iw_bw w]))).
-      { unfold nid. rewrite (iwr_id _ _ I), N.mod_small by lia. rewrite !app_length. cbn [length]. lia. }
+      assert (Hnid : nid = i0 + N.of_nat (length (pre ++ iw_frozen w ++ [iw_bw w]))).
+      { unfold nid. rewrite (iwr_id _ _ _ I), N.mod_small by lia. rewrite !app_length. cbn [length]. lia. }
       cbn [iw_bw iw_base iw_frozen iw_last].
       pose proof (reach_new nid) as Rn.
       destruct (append_guard _ id Rn Hid eq_refl) as [[_ Hex] _].
       destruct Hex as [b' Hb']; [rewrite fresh_abs; cbn [last]; split; [exact Hnz|lia]|].
       rewrite Hb'. cbn [bind].
       pose proof (append_abs _ _ _ Rn Hid eq_refl Hb') as Habs. rewrite fresh_abs in Habs. cbn [app] in Habs.
-      pose proof (full_nonempty _ (iwr_reach _ _ I) Ef) as Hbne.
+      pose proof (full_nonempty _ (iwr_reach _ _ _ I) Ef) as Hbne.
       eexists. split; [reflexivity|]. split; [|split].
       * constructor; cbn [iw_base iw_frozen iw_bw iw_last].
-        -- exact (iwr_base _ _ I).
-        -- rewrite app_assoc. apply blocks_ok_app. split; [exact (iwr_blocks _ _ I)|].
-           cbn [blocks_ok]. split; [exact (iwr_reach _ _ I)|]. split; [exact Hbne|]. split; [|exact Logic.I].
-           rewrite (iwr_id _ _ I). lia.
+        -- exact (iwr_base _ _ _ I).
+        -- rewrite app_assoc. apply blocks_ok_app. split; [exact (iwr_blocks _ _ _ I)|].
+           cbn [blocks_ok]. split; [exact (iwr_reach _ _ _ I)|]. split; [exact Hbne|]. split; [|exact Logic.I].
+           rewrite (iwr_id _ _ _ I). lia.
         -- eapply reach_append; eauto.
         -- assert (Hd : d_id (bw_desc b') = nid).
            { unfold bw_append in Hb'. cbn [bw_desc d_max d_entries d_id bw_restarts bw_data] in Hb'.
@@ -282,18 +282,18 @@ Proof.
       { destruct (bw_abs (iw_bw w)) eqn:Ea.
         - cbn [last]. lia.
         - unfold iw_abs in Hlt. rewrite Ea in Hlt. rewrite last_app_nonnil in Hlt by discriminate. exact Hlt. }
-      destruct (append_guard _ id (iwr_reach _ _ I) Hid Ef) as [[_ Hex] _].
+      destruct (append_guard _ id (iwr_reach _ _ _ I) Hid Ef) as [[_ Hex] _].
       destruct Hex as [b' Hb']; [split; assumption|]. rewrite Hb'. cbn [bind].
-      pose proof (append_abs _ _ _ (iwr_reach _ _ I) Hid Ef Hb') as Habs.
+      pose proof (append_abs _ _ _ (iwr_reach _ _ _ I) Hid Ef Hb') as Habs.
       eexists. split; [reflexivity|]. split; [|split].
       * constructor; cbn [iw_base iw_frozen iw_bw iw_last].
-        -- exact (iwr_base _ _ I).
-        -- exact (iwr_blocks _ _ I).
-        -- eapply reach_append; eauto. exact (iwr_reach _ _ I).
+        -- exact (iwr_base _ _ _ I).
+        -- exact (iwr_blocks _ _ _ I).
+        -- eapply reach_append; eauto. exact (iwr_reach _ _ _ I).
         -- assert (Hd : d_id (bw_desc b') = d_id (bw_desc (iw_bw w))).
            { unfold bw_append in Hb'. destruct (id =? 0); [discriminate|]. destruct (id <=? _); [discriminate|].
              destruct (_ mod 256 =? 0); inversion Hb'; reflexivity. }
-           rewrite Hd. exact (iwr_id _ _ I).
+           rewrite Hd. exact (iwr_id _ _ _ I).
         -- rewrite Habs. intros H. destruct (bw_abs (iw_bw w)); discriminate.
         -- unfold iw_abs. cbn [iw_frozen iw_bw]. rewrite Habs, app_assoc. exact Hasc'.
         -- unfold iw_abs. cbn [iw_frozen iw_bw]. rewrite Habs, app_assoc. symmetry. apply last_snoc.
@@ -321,15 +321,15 @@ Proof.
   replace (limit <? d_max d) with false by (symmetry; apply N.ltb_ge; exact Hle). reflexivity.
 Qed.
 
-Lemma open_last_spec db pre bL limit :
-  iok (pre ++ [bL]) -> stored db (pre ++ [bL]) -> last (iabs (pre ++ [bL])) 0 <= limit ->
+Lemma open_last_spec i0 db pre bL limit :
+  iok i0 (pre ++ [bL]) -> stored db (pre ++ [bL]) -> last (iabs (pre ++ [bL])) 0 <= limit ->
   open_last db limit = Ok (map bw_desc pre, bL, []).
 Proof.
   intros Hok Hst Hl. unfold open_last. rewrite (st_meta _ _ Hst).
-  pose proof (io_count _ Hok) as Hc.
-  rewrite parse_index_round; [|destruct pre; discriminate|apply blocks_descs_ok; [exact (io_blocks _ Hok)|lia]|rewrite map_length; lia].
+  pose proof (io_count _ _ Hok) as Hc.
+  rewrite (parse_index_round i0); [|destruct pre; discriminate|apply blocks_descs_ok; [exact (io_blocks _ _ Hok)|lia]|rewrite map_length; lia].
   cbn [bind]. rewrite map_app. cbn [map].
-  pose proof (io_blocks _ Hok) as Hb. apply blocks_ok_app in Hb. destruct Hb as [_ Hb]. cbn [blocks_ok] in Hb.
+  pose proof (io_blocks _ _ Hok) as Hb. apply blocks_ok_app in Hb. destruct Hb as [_ Hb]. cbn [blocks_ok] in Hb.
   destruct Hb as (Rb & Hne & _ & _).
   assert (HlastL : last (iabs (pre ++ [bL])) 0 = last (bw_abs bL) 0).
   { rewrite iabs_snoc. apply last_app_ne. exact Hne. }
@@ -351,30 +351,33 @@ Proof.
   destruct bl; [contradiction|cbn in H; lia].
 Qed.
 
-Theorem new_index_writer_spec db bl limit :
-  iok bl -> stored db bl -> last (iabs bl) 0 <= limit ->
-  exists w pre, new_index_writer db limit = Ok w /\ iwrepr w pre /\ iw_abs w pre = iabs bl /\
+Theorem new_index_writer_spec i0 db bl limit :
+  iok i0 bl -> stored db bl -> last (iabs bl) 0 <= limit ->
+  exists i1 w pre, new_index_writer db limit = Ok w /\ iwrepr i1 w pre /\ iw_abs w pre = iabs bl /\
+                (bl <> [] -> i1 = i0) /\ (bl = [] -> i1 = 0) /\
                 iw_frozen w = [] /\ (forall b, In b pre -> In b bl) /\
                 (length (pre ++ iw_frozen w) <= length bl)%nat.
 Proof.
   intros Hok Hst Hl. unfold new_index_writer.
   destruct (snoc_cases bl) as [->|(pre & bL & ->)].
   - rewrite (st_meta _ _ Hst). cbn [map flat_map].
-    exists (mkIW [] [] (mkBW (mkDesc 0 0 0) [] []) 0), []. split; [reflexivity|]. split; [|repeat split; auto].
+    exists 0, (mkIW [] [] (mkBW (mkDesc 0 0 0) [] []) 0), []. split; [reflexivity|].
+    split; [|split; [|split; [intros H; contradiction|split; [reflexivity|repeat split; auto]]]].
+    2:{ unfold iw_abs. cbn [iw_frozen iw_bw app]. rewrite fresh_abs. reflexivity. }
     + constructor; cbn [iw_base iw_frozen iw_bw iw_last app]; auto; try exact Logic.I; try apply reach_new;
         unfold iw_abs; cbn [iw_frozen iw_bw app]; rewrite ?fresh_abs; try reflexivity; exact Logic.I.
   - pose proof (meta_nonempty (pre ++ [bL]) (snoc_ne _ _)) as Hmn.
     rewrite (st_meta _ _ Hst). destruct (flat_map desc_encode (map bw_desc (pre ++ [bL]))) eqn:Ef; [contradiction|].
-    rewrite (open_last_spec db pre bL limit Hok Hst Hl). cbn [bind].
-    pose proof (io_blocks _ Hok) as Hb. apply blocks_ok_app in Hb. destruct Hb as [Hbp Hb]. cbn [blocks_ok] in Hb.
+    rewrite (open_last_spec i0 db pre bL limit Hok Hst Hl). cbn [bind].
+    pose proof (io_blocks _ _ Hok) as Hb. apply blocks_ok_app in Hb. destruct Hb as [Hbp Hb]. cbn [blocks_ok] in Hb.
     destruct Hb as (Rb & Hne & Hidb & _).
-    exists (mkIW (map bw_desc pre) [] bL (bw_last bL)), pre. split; [reflexivity|].
+    exists i0, (mkIW (map bw_desc pre) [] bL (bw_last bL)), pre. split; [reflexivity|].
     assert (Habs : iw_abs (mkIW (map bw_desc pre) [] bL (bw_last bL)) pre = iabs (pre ++ [bL])).
     { unfold iw_abs. cbn [iw_frozen iw_bw]. rewrite app_nil_r, iabs_snoc. reflexivity. }
-    split; [|split; [exact Habs|split; [reflexivity|split]]].
+    split; [|split; [exact Habs|split; [reflexivity|split; [intros H; destruct pre; discriminate|split; [reflexivity|split]]]]].
     + constructor; cbn [iw_base iw_frozen iw_bw iw_last]; rewrite ?app_nil_r; auto.
       * intros H. contradiction.
-      * rewrite Habs. exact (io_asc _ Hok).
+      * rewrite Habs. exact (io_asc _ _ Hok).
       * rewrite Habs, iabs_snoc, last_app_ne by exact Hne.
         destruct (reach_desc _ Rb) as [Hmax Hent]. unfold bw_last, bw_empty. rewrite Hent, Hmax.
         destruct (bw_abs bL); [contradiction|]. reflexivity.
@@ -403,34 +406,34 @@ Proof.
   - exact (IH _ _ _ Hok Hin).
 Qed.
 
-Theorem iw_finish_spec w pre db :
-  iwrepr w pre -> bw_abs (iw_bw w) <> [] ->
+Theorem iw_finish_spec i0 w pre db :
+  iwrepr i0 w pre -> bw_abs (iw_bw w) <> [] ->
   (forall b, In b pre -> blk_get (db_blocks db) (d_id (bw_desc b)) = bw_finish b) ->
-  N.of_nat (length (pre ++ iw_frozen w)) + 1 < 4294967296 ->
+  i0 + N.of_nat (length (pre ++ iw_frozen w)) + 1 < 4294967296 ->
   let bl := pre ++ iw_frozen w ++ [iw_bw w] in
-  stored (iw_finish w db) bl /\ iok bl /\ iabs bl = iw_abs w pre.
+  stored (iw_finish w db) bl /\ iok i0 bl /\ iabs bl = iw_abs w pre.
 Proof.
   intros I Hne Hpre Hcnt bl.
   assert (Hemp : bw_empty (iw_bw w) = false).
-  { unfold bw_empty. destruct (reach_desc _ (iwr_reach _ _ I)) as [_ He]. rewrite He. unfold lenN.
+  { unfold bw_empty. destruct (reach_desc _ (iwr_reach _ _ _ I)) as [_ He]. rewrite He. unfold lenN.
     destruct (bw_abs (iw_bw w)); [contradiction|]. apply N.eqb_neq. cbn [length]. lia. }
-  assert (Hbl : blocks_ok 0 bl).
-  { unfold bl. rewrite app_assoc. apply blocks_ok_app. split; [exact (iwr_blocks _ _ I)|].
-    cbn [blocks_ok]. split; [exact (iwr_reach _ _ I)|]. split; [exact Hne|]. split; [|exact Logic.I].
-    rewrite (iwr_id _ _ I). lia. }
+  assert (Hbl : blocks_ok i0 bl).
+  { unfold bl. rewrite app_assoc. apply blocks_ok_app. split; [exact (iwr_blocks _ _ _ I)|].
+    cbn [blocks_ok]. split; [exact (iwr_reach _ _ _ I)|]. split; [exact Hne|]. split; [|exact Logic.I].
+    rewrite (iwr_id _ _ _ I). lia. }
   assert (Habs : iabs bl = iw_abs w pre).
   { unfold bl, iw_abs. rewrite app_assoc, iabs_snoc. reflexivity. }
   split; [|split; [|exact Habs]].
   - unfold iw_finish. rewrite Hemp.
     rewrite match_ne by apply snoc_ne.
     constructor; cbn [db_meta db_blocks].
-    + rewrite (iwr_base _ _ I), <- map_app. reflexivity.
+    + rewrite (iwr_base _ _ _ I), <- map_app. reflexivity.
     + intros b Hb. unfold bl in Hb. apply in_app_or in Hb.
       apply blocks_ok_app in Hbl. destruct Hbl as [Hp Hws]. destruct Hb as [Hb|Hb].
       * rewrite fold_put_other; [exact (Hpre b Hb)|].
         intros b' Hb'. pose proof (blocks_ok_id _ _ _ Hws Hb'). pose proof (blocks_ok_id _ _ _ Hp Hb). lia.
       * eapply fold_put_in; eauto.
-  - constructor; [exact Hbl|rewrite Habs; exact (iwr_asc _ _ I)|].
+  - constructor; [exact Hbl|rewrite Habs; exact (iwr_asc _ _ _ I)|].
     unfold bl. rewrite app_assoc, app_length. cbn [length]. lia.
 Qed.
 
@@ -441,16 +444,16 @@ Fixpoint iw_appends (w : iwriter) (ids : list N) : res iwriter :=
   | id :: r => do w' <- iw_append w id; iw_appends w' r
   end.
 
-Lemma iw_appends_spec : forall ids w pre,
-  iwrepr w pre -> asc (last (iw_abs w pre) 0) ids ->
-  N.of_nat (length (pre ++ iw_frozen w)) + N.of_nat (length ids) + 2 < 4294967296 ->
-  exists w', iw_appends w ids = Ok w' /\ iwrepr w' pre /\ iw_abs w' pre = iw_abs w pre ++ ids /\
+Lemma iw_appends_spec i0 : forall ids w pre,
+  iwrepr i0 w pre -> asc (last (iw_abs w pre) 0) ids ->
+  i0 + N.of_nat (length (pre ++ iw_frozen w)) + N.of_nat (length ids) + 2 < 4294967296 ->
+  exists w', iw_appends w ids = Ok w' /\ iwrepr i0 w' pre /\ iw_abs w' pre = iw_abs w pre ++ ids /\
              (length (pre ++ iw_frozen w') <= length (pre ++ iw_frozen w) + length ids)%nat.
 Proof.
   induction ids as [|id ids IH]; intros w pre I Ha Hc.
   - exists w. split; [reflexivity|]. split; [exact I|]. split; [rewrite app_nil_r; reflexivity|]. cbn [length]. lia.
   - destruct Ha as (H1 & H2 & H3). cbn [length] in Hc.
-    destruct (iw_append_spec w pre id I H2 ltac:(lia)) as [_ Hok].
+    destruct (iw_append_spec i0 w pre id I H2 ltac:(lia)) as [_ Hok].
     destruct (Hok H1) as (w1 & Hw1 & I1 & Habs1 & Hlen1). cbn [iw_appends]. rewrite Hw1. cbn [bind].
     destruct (IH w1 pre I1) as (w' & Hw' & I' & Habs' & Hlen').
     + rewrite Habs1, last_snoc. exact H3.
@@ -459,28 +462,293 @@ Proof.
       cbn [length]. lia.
 Qed.
 
-Theorem writer_session db bl limit ids :
-  iok bl -> stored db bl -> last (iabs bl) 0 <= limit ->
+Theorem writer_session i0 db bl limit ids :
+  iok i0 bl -> stored db bl -> last (iabs bl) 0 <= limit ->
   ids <> [] -> asc (last (iabs bl) 0) ids ->
-  N.of_nat (length bl) + N.of_nat (length ids) + 2 < 4294967296 ->
-  exists w w' bl',
+  i0 + N.of_nat (length bl) + N.of_nat (length ids) + 2 < 4294967296 ->
+  exists i1 w w' bl',
     new_index_writer db limit = Ok w /\ iw_appends w ids = Ok w' /\
-    stored (iw_finish w' db) bl' /\ iok bl' /\ iabs bl' = iabs bl ++ ids /\
+    stored (iw_finish w' db) bl' /\ iok i1 bl' /\ (bl <> [] -> i1 = i0) /\ iabs bl' = iabs bl ++ ids /\
     db_abs (iw_finish w' db) = Ok (iabs bl ++ ids).
 Proof.
   intros Hok Hst Hl Hne Ha Hc.
-  destruct (new_index_writer_spec db bl limit Hok Hst Hl) as (w & pre & Hw & I & Habs & Hfr & Hpre & Hlen).
-  destruct (iw_appends_spec ids w pre I) as (w' & Hw' & I' & Habs' & Hlen').
+  destruct (new_index_writer_spec i0 db bl limit Hok Hst Hl) as (i1 & w & pre & Hw & I & Habs & Hi1 & Hi1' & Hfr & Hpre & Hlen).
+  assert (Hi : i1 <= i0) by (destruct bl; [rewrite (Hi1' eq_refl); lia|rewrite Hi1 by discriminate; lia]).
+  destruct (iw_appends_spec i1 ids w pre I) as (w' & Hw' & I' & Habs' & Hlen').
   - rewrite Habs. exact Ha.
   - lia.
   - assert (Hbne : bw_abs (iw_bw w') <> []).
-    { intros He. destruct (iwr_empty _ _ I' He) as [-> Hf']. unfold iw_abs in Habs'. rewrite Hf', He in Habs'.
-      cbn [app iabs map concat] in Habs'. symmetry in Habs'. apply app_eq_nil in Habs'. destruct Habs' as [_ Hi]. contradiction. }
-    destruct (iw_finish_spec w' pre db I' Hbne) as (Hst' & Hok' & Habs'').
+    { intros He. destruct (iwr_empty _ _ _ I' He) as [-> Hf']. unfold iw_abs in Habs'. rewrite Hf', He in Habs'.
+      cbn [app iabs map concat] in Habs'. symmetry in Habs'. apply app_eq_nil in Habs'. destruct Habs' as [_ Hi']. contradiction. }
+    destruct (iw_finish_spec i1 w' pre db I' Hbne) as (Hst' & Hok' & Habs'').
     + intros b Hb. apply (st_blocks _ _ Hst). apply Hpre. exact Hb.
     + lia.
-    + exists w, w', (pre ++ iw_frozen w' ++ [iw_bw w']). split; [exact Hw|]. split; [exact Hw'|].
-      split; [exact Hst'|]. split; [exact Hok'|].
+    + exists i1, w, w', (pre ++ iw_frozen w' ++ [iw_bw w']). split; [exact Hw|]. split; [exact Hw'|].
+      split; [exact Hst'|]. split; [exact Hok'|]. split; [exact Hi1|].
       assert (Hfin : iabs (pre ++ iw_frozen w' ++ [iw_bw w']) = iabs bl ++ ids) by (rewrite Habs'', Habs', Habs; reflexivity).
-      split; [exact Hfin|]. rewrite (db_abs_spec _ _ Hok' Hst'), Hfin. reflexivity.
+      split; [exact Hfin|]. rewrite (db_abs_spec _ _ _ Hok' Hst'), Hfin. reflexivity.
+Qed.
+
+(* ------------------------------------------------------------------ *)
+(* the index pruner (pruneEntry)                                        *)
+
+Lemma blk_get_del_other bs id id' : id' <> id -> blk_get (blk_del bs id) id' = blk_get bs id'.
+Proof.
+  intros Hd. induction bs as [|[k w] bs IH]; [reflexivity|]. cbn [blk_del blk_get].
+  destruct (N.eqb_spec k id) as [->|Hn].
+  - replace (id =? id') with false by (symmetry; apply N.eqb_neq; congruence). reflexivity.
+  - cbn [blk_get]. destruct (k =? id'); [reflexivity|exact IH].
+Qed.
+
+Lemma fold_del_other (ds : list desc) : forall bs id,
+  (forall d, In d ds -> d_id d <> id) ->
+  blk_get (fold_left (fun bs d => blk_del bs (d_id d)) ds bs) id = blk_get bs id.
+Proof.
+  induction ds as [|d ds IH]; intros bs id H; [reflexivity|]. cbn [fold_left].
+  rewrite IH by (intros d' Hd'; apply H; right; exact Hd').
+  apply blk_get_del_other. intros Heq. apply (H d (or_introl eq_refl)). symmetry. exact Heq.
+Qed.
+
+Lemma asc_le_last p l x : asc p l -> In x l -> x <= last l p.
+Proof.
+  revert p. induction l as [|y l IH]; intros p Ha Hin; [destruct Hin|].
+  destruct Ha as (H1 & H2 & H3). rewrite last_cons_default. destruct Hin as [<-|Hin].
+  - apply asc_last_ge. exact H3.
+  - apply IH; assumption.
+Qed.
+
+Lemma asc_suffix p a b : asc p (a ++ b) -> asc 0 b.
+Proof. intros H. apply asc_app in H. destruct H as [_ H]. eapply asc_weaken; [|exact H]. lia. Qed.
+
+Lemma block_asc : forall bl i b, blocks_ok i bl -> asc 0 (iabs bl) -> In b bl -> asc 0 (bw_abs b).
+Proof.
+  induction bl as [|x bl IH]; intros i b Hok Ha Hin; [destruct Hin|].
+  destruct Hok as (_ & _ & _ & Hok). unfold iabs in Ha. cbn [map concat] in Ha. destruct Hin as [<-|Hin].
+  - apply asc_app in Ha. tauto.
+  - apply (IH (i + 1) b Hok); [eapply asc_suffix; exact Ha|exact Hin].
+Qed.
+
+(* number of leading blocks whose last id is below the tail *)
+Fixpoint lead_below (bl : list bwriter) (tail : N) : nat :=
+  match bl with
+  | [] => O
+  | b :: r => if last (bw_abs b) 0 <? tail then S (lead_below r tail) else O
+  end.
+
+Lemma prune_count_blocks : forall bl i tail,
+  blocks_ok i bl -> prune_count (map bw_desc bl) tail = lead_below bl tail.
+Proof.
+  induction bl as [|b bl IH]; intros i tail Hok; [reflexivity|].
+  destruct Hok as (Rb & _ & _ & Hok). cbn [map prune_count lead_below].
+  destruct (reach_desc _ Rb) as [-> _]. destruct (_ <? tail); [|reflexivity]. f_equal. exact (IH _ _ Hok).
+Qed.
+
+Lemma lead_below_le bl tail : (lead_below bl tail <= length bl)%nat.
+Proof. induction bl as [|b bl IH]; cbn [lead_below length]; [lia|]. destruct (_ <? tail); lia. Qed.
+
+Lemma lead_below_dropped : forall bl i tail,
+  blocks_ok i bl -> asc 0 (iabs bl) ->
+  forall x, In x (iabs (firstn (lead_below bl tail) bl)) -> x < tail.
+Proof.
+  induction bl as [|b bl IH]; intros i tail Hok Ha x Hx; [destruct Hx|].
+  cbn [lead_below] in Hx. destruct (N.ltb_spec (last (bw_abs b) 0) tail) as [Hlt|Hge]; [|destruct Hx].
+  cbn [firstn] in Hx. unfold iabs in Hx. cbn [map concat] in Hx. apply in_app_or in Hx.
+  destruct Hok as (_ & _ & _ & Hok'). destruct Hx as [Hx|Hx].
+  - assert (Hb : asc 0 (bw_abs b)) by (unfold iabs in Ha; cbn [map concat] in Ha; apply asc_app in Ha; tauto).
+    pose proof (asc_le_last 0 _ x Hb Hx). lia.
+  - apply (IH (i + 1) tail Hok'); [unfold iabs in Ha; cbn [map concat] in Ha; eapply asc_suffix; exact Ha|exact Hx].
+Qed.
+
+Lemma lead_below_kept : forall bl tail b r,
+  skipn (lead_below bl tail) bl = b :: r -> tail <= last (bw_abs b) 0.
+Proof.
+  induction bl as [|x bl IH]; intros tail b r H; [discriminate|]. cbn [lead_below] in H.
+  destruct (N.ltb_spec (last (bw_abs x) 0) tail) as [Hlt|Hge].
+  - cbn [skipn] in H. exact (IH _ _ _ H).
+  - cbn [skipn] in H. inversion H; subst. exact Hge.
+Qed.
+
+Lemma blocks_ok_skipn : forall k bl i, blocks_ok i bl -> blocks_ok (i + N.of_nat k) (skipn k bl).
+Proof.
+  induction k as [|k IH]; intros bl i Hok; [cbn; rewrite N.add_0_r; exact Hok|].
+  destruct bl as [|b bl]; [exact Logic.I|]. destruct Hok as (_ & _ & _ & Hok). cbn [skipn].
+  replace (i + N.of_nat (S k)) with (i + 1 + N.of_nat k) by lia. exact (IH _ _ Hok).
+Qed.
+
+Lemma iabs_firstn_skipn k bl : iabs bl = iabs (firstn k bl) ++ iabs (skipn k bl).
+Proof. rewrite <- iabs_app, firstn_skipn. reflexivity. Qed.
+
+Lemma meta_first_max b bl :
+  bw_reach b -> d_id (bw_desc b) < 4294967296 ->
+  be_num (firstn 8 (flat_map desc_encode (map bw_desc (b :: bl)))) = d_max (bw_desc b).
+Proof.
+  intros Rb Hid. cbn [map flat_map]. unfold desc_encode. rewrite <- !app_assoc.
+  rewrite (firstn_app_exact 8) by apply be_bytes_len.
+  apply be_round. exact (proj1 (reach_desc_wf _ Rb Hid)).
+Qed.
+
+Theorem prune_spec i0 db bl tail :
+  iok i0 bl -> stored db bl ->
+  let k := lead_below bl tail in
+  snd (prune_entry db tail) = k /\
+  stored (fst (prune_entry db tail)) (skipn k bl) /\ iok (i0 + N.of_nat k) (skipn k bl) /\
+  (forall x, In x (iabs (firstn k bl)) -> x < tail) /\
+  (forall b r, skipn k bl = b :: r -> tail <= last (bw_abs b) 0) /\
+  iabs bl = iabs (firstn k bl) ++ iabs (skipn k bl).
+Proof.
+  intros Hok Hst k.
+  pose proof (io_blocks _ _ Hok) as Hb. pose proof (io_asc _ _ Hok) as Ha. pose proof (io_count _ _ Hok) as Hc.
+  assert (Hiok : iok (i0 + N.of_nat k) (skipn k bl)).
+  { constructor.
+    - apply blocks_ok_skipn. exact Hb.
+    - rewrite (iabs_firstn_skipn k bl) in Ha. eapply asc_suffix. exact Ha.
+    - rewrite skipn_length. pose proof (lead_below_le bl tail). fold k in H. lia. }
+  assert (Hrest : (forall x, In x (iabs (firstn k bl)) -> x < tail) /\
+                  (forall b r, skipn k bl = b :: r -> tail <= last (bw_abs b) 0) /\
+                  iabs bl = iabs (firstn k bl) ++ iabs (skipn k bl)).
+  { split; [exact (lead_below_dropped bl i0 tail Hb Ha)|]. split; [exact (lead_below_kept bl tail)|apply iabs_firstn_skipn]. }
+  unfold prune_entry. rewrite (st_meta _ _ Hst).
+  destruct bl as [|b0 bl'].
+  - cbn [map flat_map] in *. split; [reflexivity|]. split; [exact Hst|]. split; [exact Hiok|exact Hrest].
+  - pose proof (meta_nonempty (b0 :: bl') ltac:(discriminate)) as Hmn.
+    destruct (flat_map desc_encode (map bw_desc (b0 :: bl'))) as [|m0 mr] eqn:Ef; [contradiction|]. rewrite <- Ef.
+    destruct Hb as (Rb0 & Hne0 & Hid0 & Hb').
+    assert (Hlen8 : Nat.leb 8 (length (flat_map desc_encode (map bw_desc (b0 :: bl')))) = true).
+    { apply Nat.leb_le. rewrite flat_desc_len. cbn [map length]. lia. }
+    rewrite Hlen8, (meta_first_max b0 bl' Rb0) by (cbn [length] in Hc; lia). cbn [andb].
+    destruct (reach_desc _ Rb0) as [Hmax0 _]. rewrite Hmax0.
+    destruct (N.leb_spec tail (last (bw_abs b0) 0)) as [Hfast|Hslow].
+    + (* fast path: nothing to prune *)
+      assert (Hk : k = O).
+      { unfold k. cbn [lead_below]. replace (last (bw_abs b0) 0 <? tail) with false by (symmetry; apply N.ltb_ge; exact Hfast). reflexivity. }
+      cbn [fst snd]. split; [symmetry; exact Hk|]. split; [rewrite Hk; exact Hst|]. split; [exact Hiok|exact Hrest].
+    + rewrite (parse_index_round i0); [|discriminate|apply blocks_descs_ok; [cbn [blocks_ok]; auto|cbn [length] in *; lia]|rewrite map_length; cbn [length] in *; lia].
+      rewrite (prune_count_blocks (b0 :: bl') i0 tail) by (cbn [blocks_ok]; auto). fold k.
+      destruct k as [|k'] eqn:Ek.
+      * exfalso. unfold k in Ek. cbn [lead_below] in Ek.
+        replace (last (bw_abs b0) 0 <? tail) with true in Ek by (symmetry; apply N.ltb_lt; exact Hslow). discriminate.
+      * cbn [fst snd]. split; [reflexivity|]. split; [|split; [exact Hiok|exact Hrest]].
+        constructor; cbn [db_meta db_blocks].
+        -- rewrite skipn_map. reflexivity.
+        -- intros b Hin. rewrite fold_del_other.
+           ++ apply (st_blocks _ _ Hst). rewrite <- (firstn_skipn (S k') (b0 :: bl')). apply in_or_app. right. exact Hin.
+           ++ intros d Hd. rewrite firstn_map in Hd. apply in_map_iff in Hd. destruct Hd as (bd & <- & Hbd).
+              assert (Hall : blocks_ok i0 (b0 :: bl')) by (cbn [blocks_ok]; auto).
+              rewrite <- (firstn_skipn (S k') (b0 :: bl')) in Hall. apply blocks_ok_app in Hall. destruct Hall as [H1 H2].
+              pose proof (blocks_ok_id _ _ _ H1 Hbd). pose proof (blocks_ok_id _ _ _ H2 Hin). lia.
+Qed.
+
+Corollary prune_keeps i0 db bl tail :
+  iok i0 bl -> stored db bl ->
+  exists l1 l2, iabs bl = l1 ++ l2 /\ db_abs (fst (prune_entry db tail)) = Ok l2 /\
+                (forall x, In x l1 -> x < tail) /\
+                (forall x, In x (iabs bl) -> tail <= x -> In x l2).
+Proof.
+  intros Hok Hst. destruct (prune_spec i0 db bl tail Hok Hst) as (_ & Hst' & Hok' & Hd & _ & Hsplit).
+  exists (iabs (firstn (lead_below bl tail) bl)), (iabs (skipn (lead_below bl tail) bl)).
+  split; [exact Hsplit|]. split; [exact (db_abs_spec _ _ _ Hok' Hst')|]. split; [exact Hd|].
+  intros x Hx Hge. rewrite Hsplit in Hx. apply in_app_or in Hx. destruct Hx as [Hx|Hx]; [|exact Hx].
+  specialize (Hd x Hx). lia.
+Qed.
+
+(* ------------------------------------------------------------------ *)
+(* all histories of writer sessions and pruner runs                      *)
+
+(* id the next rotated block would get, read off the stored metadata *)
+Definition db_next_id (db : idb) : N :=
+  match db_meta db with
+  | [] => 0
+  | _ => match parse_index (db_meta db) with
+         | Ok dl => match last_opt dl with Some d => d_id d + 1 | None => 0 end
+         | Err _ => 0
+         end
+  end.
+
+Lemma db_next_id_spec i0 db bl :
+  iok i0 bl -> stored db bl -> bl <> [] -> db_next_id db = i0 + N.of_nat (length bl).
+Proof.
+  intros Hok Hst Hne. unfold db_next_id. rewrite (st_meta _ _ Hst).
+  pose proof (meta_nonempty bl Hne) as Hmn.
+  destruct (flat_map desc_encode (map bw_desc bl)) eqn:Ef; [contradiction|]. rewrite <- Ef.
+  pose proof (io_count _ _ Hok) as Hc.
+  rewrite (parse_index_round i0); [|destruct bl; [contradiction|discriminate]|apply blocks_descs_ok; [exact (io_blocks _ _ Hok)|lia]|rewrite map_length; lia].
+  destruct (snoc_cases bl) as [->|(pre & bL & ->)]; [contradiction|].
+  rewrite map_app. cbn [map]. rewrite last_opt_snoc.
+  pose proof (io_blocks _ _ Hok) as Hb. apply blocks_ok_app in Hb. destruct Hb as [_ (_ & _ & Hid & _)].
+  rewrite Hid, app_length. cbn [length]. lia.
+Qed.
+
+(* stores reachable from the empty one by writer sessions (a limit that trims
+   nothing, a non-empty ascending run of uint64 ids above the last stored id,
+   block ids below 2^32) and pruner runs with arbitrary tails *)
+Inductive ihist : idb -> Prop :=
+| ih_empty : ihist (mkDB [] [])
+| ih_write db l limit ids w w' :
+    ihist db -> db_abs db = Ok l -> last l 0 <= limit -> ids <> [] -> asc (last l 0) ids ->
+    db_next_id db + N.of_nat (length ids) + 2 < 4294967296 ->
+    new_index_writer db limit = Ok w -> iw_appends w ids = Ok w' ->
+    ihist (iw_finish w' db)
+| ih_prune db tail : ihist db -> ihist (fst (prune_entry db tail)).
+
+Lemma iok_nil i0 : i0 < 4294967296 -> iok i0 [].
+Proof. intros H. constructor; cbn; auto. lia. Qed.
+
+Lemma write_step i0 db bl l limit ids w w' :
+  iok i0 bl -> stored db bl -> db_abs db = Ok l -> last l 0 <= limit -> ids <> [] -> asc (last l 0) ids ->
+  db_next_id db + N.of_nat (length ids) + 2 < 4294967296 ->
+  new_index_writer db limit = Ok w -> iw_appends w ids = Ok w' ->
+  exists i1 bl', iok i1 bl' /\ stored (iw_finish w' db) bl' /\ iabs bl' = l ++ ids /\
+                 db_abs (iw_finish w' db) = Ok (l ++ ids).
+Proof.
+  intros Hok Hst Hl Hlim Hne Ha Hc Hw Hw'.
+  rewrite (db_abs_spec _ _ _ Hok Hst) in Hl. inversion Hl; subst l. clear Hl.
+  assert (Hex : exists j, iok j bl /\ j + N.of_nat (length bl) + N.of_nat (length ids) + 2 < 4294967296).
+  { destruct bl as [|b bl'].
+    - exists 0. split; [apply iok_nil; lia|]. cbn [length]. lia.
+    - exists i0. split; [exact Hok|]. rewrite <- (db_next_id_spec i0 db (b :: bl') Hok Hst) by discriminate. exact Hc. }
+  destruct Hex as (j & Hokj & Hcj).
+  destruct (writer_session j db bl limit ids Hokj Hst Hlim Hne Ha Hcj) as (i1 & w2 & w2' & bl' & Hw2 & Hw2' & Hst' & Hok' & _ & Habs & Hdb).
+  rewrite Hw in Hw2. inversion Hw2; subst w2. rewrite Hw' in Hw2'. inversion Hw2'; subst w2'.
+  exists i1, bl'. auto.
+Qed.
+
+Theorem ihist_inv db : ihist db -> exists i0 bl, iok i0 bl /\ stored db bl.
+Proof.
+  induction 1 as [|db l limit ids w w' _ IH Hl Hlim Hne Ha Hc Hw Hw'|db tail _ IH].
+  - exists 0, []. split; [apply iok_nil; lia|]. constructor; [reflexivity|intros b []].
+  - destruct IH as (i0 & bl & Hok & Hst).
+    destruct (write_step i0 db bl l limit ids w w' Hok Hst Hl Hlim Hne Ha Hc Hw Hw') as (i1 & bl' & H1 & H2 & _).
+    exists i1, bl'. auto.
+  - destruct IH as (i0 & bl & Hok & Hst).
+    destruct (prune_spec i0 db bl tail Hok Hst) as (_ & Hst' & Hok' & _).
+    eexists _, _. split; [exact Hok'|exact Hst'].
+Qed.
+
+(* over every such history: the store always decodes to a strictly ascending
+   list; a writer session appends exactly its ids; a pruner run removes a
+   prefix consisting only of ids below the tail and keeps every id >= tail *)
+Theorem hist_sorted db : ihist db -> exists l, db_abs db = Ok l /\ asc 0 l.
+Proof.
+  intros H. destruct (ihist_inv db H) as (i0 & bl & Hok & Hst).
+  exists (iabs bl). split; [exact (db_abs_spec _ _ _ Hok Hst)|exact (io_asc _ _ Hok)].
+Qed.
+
+Theorem hist_write db l limit ids w w' :
+  ihist db -> db_abs db = Ok l -> last l 0 <= limit -> ids <> [] -> asc (last l 0) ids ->
+  db_next_id db + N.of_nat (length ids) + 2 < 4294967296 ->
+  new_index_writer db limit = Ok w -> iw_appends w ids = Ok w' ->
+  db_abs (iw_finish w' db) = Ok (l ++ ids).
+Proof.
+  intros H Hl Hlim Hne Ha Hc Hw Hw'. destruct (ihist_inv db H) as (i0 & bl & Hok & Hst).
+  destruct (write_step i0 db bl l limit ids w w' Hok Hst Hl Hlim Hne Ha Hc Hw Hw') as (_ & _ & _ & _ & _ & Hdb). exact Hdb.
+Qed.
+
+Theorem hist_prune db l tail :
+  ihist db -> db_abs db = Ok l ->
+  exists l1 l2, l = l1 ++ l2 /\ db_abs (fst (prune_entry db tail)) = Ok l2 /\
+                (forall x, In x l1 -> x < tail) /\ (forall x, In x l -> tail <= x -> In x l2).
+Proof.
+  intros H Hl. destruct (ihist_inv db H) as (i0 & bl & Hok & Hst).
+  rewrite (db_abs_spec _ _ _ Hok Hst) in Hl. inversion Hl; subst l.
+  exact (prune_keeps i0 db bl tail Hok Hst).
 Qed.
